@@ -8,7 +8,7 @@ open Nice.Lifecycle
     A disposing refresh (`x!`) is read as `forgetting` while x is a live stream, as `removing` otherwise. -/
 private def parseSnap (ws : List String) : Option Agent := do
   let keys := ["streams", "discovery", "refreshes", "triggered", "checklists", "pruning", "keepalive",
-               "conncheck", "discoverytimer", "next"]
+               "conncheck", "discoverytimer", "next", "unsched"]
   let rec go (ws : List String) (cur : String) (acc : List (String × List String)) : List (String × List String) :=
     match ws with
     | [] => acc
@@ -35,14 +35,18 @@ private def parseSnap (ws : List String) : Option Agent := do
     | _ => none
   let ka ← (get "keepalive").head? >>= String.toNat?
   let next ← (get "next").head? >>= String.toNat?
-  pure { streams, discovery, refreshes, triggered, checkLists, pruning, keepalive := ka != 0, nextId := next }
+  let dt ← (get "discoverytimer").head? >>= String.toNat?
+  let us ← (get "unsched").head? >>= String.toNat?
+  pure { streams, discovery, refreshes, triggered, checkLists, pruning, keepalive := ka != 0, nextId := next,
+         unsched := us, discTimer := dt != 0 }
 
 private def showSnap (a : Agent) : String :=
   let l (xs : List Nat) := String.join (xs.map fun x => s!" {x}")
   s!"streams{l a.streams} discovery{l a.discovery} refreshes" ++
   String.join (a.refreshes.map fun r => s!" {r.sid}" ++ (if r.st == .live then "" else "!")) ++
   s!" triggered{l a.triggered} checklists" ++ String.join (a.checkLists.map fun p => s!" {p.1}:{p.2}") ++
-  s!" pruning{l a.pruning} keepalive {if a.keepalive then 1 else 0} next {a.nextId}"
+  s!" pruning{l a.pruning} keepalive {if a.keepalive then 1 else 0} discoverytimer {if a.discTimer then 1 else 0}" ++
+  s!" next {a.nextId} unsched {a.unsched}"
 
 /-- `lc rm <sid> <snapshot>` → snapshot after nice_agent_remove_stream ;
     `lc add <snapshot>` → `id <n> <snapshot>` ; `lc wf <snapshot>` → `wf 1|0` ; `lc mentions <sid> <snapshot>` -/
